@@ -279,7 +279,7 @@ pub fn programs(thorough: bool) -> Vec<Value> {
   } } } } }
   // (3) whole-row programs with output modifiers, row repeats and absorbing
   let row_tos: Vec<Value> = vec![json!({"letters": "aoeu"}), json!(["RIGHTALT", {"letters": ":<"}]), json!(["@a", {"letters": " X y"}]), json!({"letters": "AbCdEfGhIj"})];
-  let row_reps: Vec<Option<Value>> = vec![None, Some(json!("Disabled")), Some(json!({"Special": {"keys": {"letters": "xy"}, "delay_ms": 10, "interval_ms": 20}})), Some(json!({"Special": {"keys": ["@a", {"letters": " Z"}], "delay_ms": 10, "interval_ms": 20}})), Some(json!({"Special": {"keys": ["LEFTCTRL", {"letters": "q"}], "delay_ms": 10, "interval_ms": 20}}))];
+  let row_reps: Vec<Option<Value>> = vec![None, Some(json!("Disabled")), Some(json!({"Special": {"keys": ["LEFTSHIFT", {"letters": "AO"}], "delay_ms": 10, "interval_ms": 20}})), Some(json!({"Special": {"keys": ["@a", {"letters": "A:"}], "delay_ms": 10, "interval_ms": 20}})), Some(json!({"Special": {"keys": {"letters": "xy"}, "delay_ms": 10, "interval_ms": 20}})), Some(json!({"Special": {"keys": ["@a", {"letters": " Z"}], "delay_ms": 10, "interval_ms": 20}})), Some(json!({"Special": {"keys": ["LEFTCTRL", {"letters": "q"}], "delay_ms": 10, "interval_ms": 20}}))];
   for d in &defs { for ms_ in modsets.iter() { for to in &row_tos { for rp in &row_reps { for ab in absorbs.iter().take(4) { for row in ["Q", "z", "1"] {
     let mut from = ms_.as_array().unwrap().clone(); from.push(json!({ "row": row }));
     let mut m = json!({"from": from, "to": to});
@@ -315,9 +315,10 @@ pub fn programs(thorough: bool) -> Vec<Value> {
   ps
 }
 
-pub fn converted_outputs_for_c15() -> Vec<Layout> {
+pub fn converted_outputs_for_c15(thorough: bool) -> Vec<Layout> {
   let mut out = vec![];
-  for (i, p) in programs(false).iter().enumerate() { if i % 23 == 0 { if let Ok(l) = load_layout_value(p) { if !l.mappings.is_empty() { out.push(l); } } } }
+  let stride = if thorough { 3 } else { 23 };
+  for (i, p) in programs(false).iter().enumerate() { if i % stride == 0 || i % 101 < 3 { if let Ok(l) = load_layout_value(p) { if !l.mappings.is_empty() { out.push(l); } } } }
   out
 }
 
